@@ -70,6 +70,10 @@ def checkLine (oc : Bool) (line : String) : Option (List String × String) :=
     (FBV.DrvPL.check false pre impl).map fun (v, nt) => (v, if nt then "pl_nontrivial" else "pl_trivial")
   | [("APL" :: pre), impl] =>
     (FBV.DrvPL.check true pre impl).map fun (v, nt) => (v, if nt then "apl_nontrivial" else "apl_trivial")
+  | [("EF" :: _pre), res] =>
+    -- Debug formatting with every kind of format option: must not panic (C04); what it renders is not constrained
+    some ((if res == ["-"] then [] else ["UNSAT C04", "UNSAT C19"]), "ef_nontrivial")
+  | [("BW" :: pre), impl] => (FBV.DrvAD.checkBW pre impl).map fun (v, _) => (v, "bw_nontrivial")
   | [("TV" :: pre), op, out, post] =>
     (FBV.DrvT1.checkTV oc pre op out post).map fun (v, nt) => (v, if nt then "tv_nontrivial" else "tv_trivial")
   | [("T0" :: pre), post] => (FBV.DrvT1.checkT0 pre post).map fun v => (v, "t0")
